@@ -8,22 +8,6 @@ import (
 	"sync"
 )
 
-// goid returns the id of the calling goroutine (parsed from the stack header).
-func goid() uint64 {
-	var buf [64]byte
-	n := runtime.Stack(buf[:], false)
-	// "goroutine 123 ["
-	var id uint64
-	for i := len("goroutine "); i < n; i++ {
-		c := buf[i]
-		if c < '0' || c > '9' {
-			break
-		}
-		id = id*10 + uint64(c-'0')
-	}
-	return id
-}
-
 type waiter struct {
 	g      uint64
 	ch     chan struct{}
